@@ -70,6 +70,8 @@ fn step_pool_raw() -> Vec<Step> {
             "unset SCRUT_VERIF_INHERITED" => "u0".to_string(),
             "SCRUT_VERIF_INHERITED=changed" => format!("a0:{}", hv("changed")),
             "readonly X=frozen" => format!("r1:{}", hv("frozen")),
+            x if x.starts_with("X=before-cleanup;") => format!("a1:{}", hv("before-cleanup")),
+            x if x.starts_with("Y=recreated;") => format!("a2:{}", hv("recreated")),
             _ => "o".to_string(),
         };
         Step { snippet: snippet.to_string(), detached: false, class, action, idx: 0 }
@@ -92,6 +94,10 @@ fn step_pool_raw() -> Vec<Step> {
         s("f() { echo \"f says ${X-none}\"; }", "function"),
         s("f() { local a=1; g() { echo inner; }; g; echo outer; }", "function-nested"),
         s("unset -f f", "function-unset"),
+        // a test case that tidies up its temporary directory, hidden entries included (scrut keeps the state file
+        // in a hidden directory below $TMPDIR): the state must still be carried
+        s("X=before-cleanup; find \"$TMPDIR\" -mindepth 1 -delete 2>/dev/null; true", "tmpdir-emptied"),
+        s("Y=recreated; rm -rf \"$TMPDIR\" && mkdir \"$TMPDIR\"", "tmpdir-recreated"),
         // a function whose body needs `extglob` to be PARSED: the carrier must restore the option before the function
         s("shopt -s extglob\ng() { case \"$1\" in +([0-9])) echo num;; *) echo other;; esac; }", "function-extglob"),
         s("alias ll='echo aliased'", "alias"),
@@ -127,11 +133,12 @@ fn run_per_process(steps: &[Step], work: &Path, tmp: &Path) -> Result<Vec<String
             expectations: vec![],
             exit_code: None,
             line_number: i + 1,
-            config: TestCaseConfig { detached: if st.detached { Some(true) } else { None }, ..TestCaseConfig::default_markdown() },
+            // as `scrut test` does: TMPDIR of the test cases is the temporary directory that also holds the state directory
+            config: TestCaseConfig { detached: if st.detached { Some(true) } else { None }, environment: [("TMPDIR".to_string(), tmp.to_string_lossy().to_string())].into_iter().collect(), ..TestCaseConfig::default_markdown() },
         });
     }
     // a final pure probe
-    tcs.push(TestCase { title: "final".into(), shell_expression: PROBE.to_string(), expectations: vec![], exit_code: None, line_number: 99, config: TestCaseConfig::default_markdown() });
+    tcs.push(TestCase { title: "final".into(), shell_expression: PROBE.to_string(), expectations: vec![], exit_code: None, line_number: 99, config: TestCaseConfig { environment: [("TMPDIR".to_string(), tmp.to_string_lossy().to_string())].into_iter().collect(), ..TestCaseConfig::default_markdown() } });
     let refs: Vec<&TestCase> = tcs.iter().collect();
     let ex = StatefulExecutor::new(BashRunner::stateful_generator(&bash()));
     let ctx = Context { work_directory: work.to_path_buf(), temp_directory: tmp.to_path_buf(), file: PathBuf::from("doc.md"), config: DocumentConfig::default_markdown() };
@@ -149,7 +156,7 @@ fn run_per_process(steps: &[Step], work: &Path, tmp: &Path) -> Result<Vec<String
 }
 
 /// (b) one bash session fed the same snippets; a detached step runs in a subshell (leaves nothing)
-fn run_session(steps: &[Step], work: &Path) -> Result<Vec<String>, String> {
+fn run_session(steps: &[Step], work: &Path, tmp: &Path) -> Result<Vec<String>, String> {
     let mut script = String::from("shopt -s expand_aliases\n");
     for (i, st) in steps.iter().enumerate() {
         if st.detached {
@@ -161,7 +168,7 @@ fn run_session(steps: &[Step], work: &Path) -> Result<Vec<String>, String> {
         }
     }
     script.push_str(&format!("{}\necho \"@@MARK final $?\"\n", PROBE));
-    let out = std::process::Command::new(bash()).current_dir(work).stdin(std::process::Stdio::piped()).stdout(std::process::Stdio::piped()).stderr(std::process::Stdio::null()).spawn().and_then(|mut c| {
+    let out = std::process::Command::new(bash()).current_dir(work).env("TMPDIR", tmp).stdin(std::process::Stdio::piped()).stdout(std::process::Stdio::piped()).stderr(std::process::Stdio::null()).spawn().and_then(|mut c| {
         use std::io::Write;
         c.stdin.take().unwrap().write_all(script.as_bytes())?;
         c.wait_with_output()
@@ -189,12 +196,12 @@ fn run_session(steps: &[Step], work: &Path) -> Result<Vec<String>, String> {
 fn history_case(prop: &str, steps: Vec<Step>, root: &Path, idx: u64) -> CaseRec {
     let dir = root.join(format!("h-{idx}"));
     let _ = std::fs::remove_dir_all(&dir);
-    let (wa, wb, tmp) = (dir.join("a/work"), dir.join("b/work"), dir.join("tmp"));
-    for d in [&wa, &wb, &tmp] {
+    let (wa, wb, tmp, tmpb) = (dir.join("a/work"), dir.join("b/work"), dir.join("tmp"), dir.join("tmpb"));
+    for d in [&wa, &wb, &tmp, &tmpb] {
         std::fs::create_dir_all(d).unwrap();
     }
     let a = run_per_process(&steps, &wa, &tmp);
-    let b = run_session(&steps, &wb);
+    let b = run_session(&steps, &wb, &tmpb);
     let mut fails = vec![];
     let norm = |s: &str, w: &Path| s.replace(&w.to_string_lossy().to_string(), "<WORK>");
     let classes: Vec<&str> = steps.iter().map(|s| s.class).collect();
